@@ -1105,6 +1105,7 @@ type attributeCacheKey struct {
 // attributeCacheEntry represents a cached attribute lookup result
 type attributeCacheEntry struct {
 	fieldIndex  int       // Index of the field (-1 if not a field)
+	fieldPath   []int     // Full index path of the field (longer than one for fields promoted from embedded structs)
 	isMethod    bool      // Whether this is a method
 	methodIndex int       // Index of the method (-1 if not a method)
 	ptrMethod   bool      // Whether the method is on the pointer type
@@ -1268,6 +1269,16 @@ func (ctx *RenderContext) getAttribute(obj interface{}, attr string) (interface{
 		objValue = objValue.Elem()
 	}
 
+	// Maps of any static type (map[string]string, map[string]int, ...) are
+	// looked up by key like map[string]interface{} above
+	if objValue.Kind() == reflect.Map && objValue.Type().Key().Kind() == reflect.String {
+		value := objValue.MapIndex(reflect.ValueOf(attr).Convert(objValue.Type().Key()))
+		if value.IsValid() && value.CanInterface() {
+			return value.Interface(), nil
+		}
+		return nil, nil
+	}
+
 	// Only use caching for struct types
 	if objValue.Kind() != reflect.Struct {
 		// Instead of returning an error for non-struct types, return nil
@@ -1327,7 +1338,9 @@ func (ctx *RenderContext) getAttribute(obj interface{}, attr string) (interface{
 			// Look for a field
 			field, found := objType.FieldByName(attr)
 			if found {
-				entry.fieldIndex = field.Index[0] // Assuming single-level field access
+				entry.fieldIndex = field.Index[0]
+				// A field promoted from an embedded struct has a longer index path
+				entry.fieldPath = field.Index
 			}
 
 			// Look for a method on the value
@@ -1357,8 +1370,8 @@ func (ctx *RenderContext) getAttribute(obj interface{}, attr string) (interface{
 
 	// Try field access first
 	if entry.fieldIndex >= 0 {
-		field := objValue.Field(entry.fieldIndex)
-		if field.IsValid() && field.CanInterface() {
+		field, err := objValue.FieldByIndexErr(entry.fieldPath)
+		if err == nil && field.IsValid() && field.CanInterface() {
 			return field.Interface(), nil
 		}
 	}
